@@ -734,6 +734,21 @@ impl Scenario for C09 {
                     b.push(Step::Seal { tok, node: 0, key, purpose, claims, footer, aad: Bytes::empty(), nonce: None, alias: false, rng, now_ns: now });
                     texts.push(TextRef::Tok { slot: tok });
                 }
+                // typed (JSON) footers written by other implementations: same meaning, other bytes; whatever
+                // the parser accepts must re-serialise to the very string that was delivered
+                for _ in 0..2 {
+                    let tok = b.tok_slot();
+                    let claims = ClaimsSpec::Raw { bytes: b.bytes(12) };
+                    let rng = b.healthy_rng();
+                    let key = if purpose == Purp::Local { fk.local } else { fk.secret };
+                    let vkey = if purpose == Purp::Local { fk.local } else { fk.public };
+                    let value = serde_json::json!({"kid": format!("k{}", b.rng.below(100)), "a/b": "x", "n": b.rng.below(9)});
+                    b.push(Step::Seal { tok, node: 0, key, purpose, claims, footer: FootSpec::Json { value }, aad: Bytes::empty(), nonce: None, alias: false, rng, now_ns: now });
+                    b.push(Step::Deliver { tok, node: 0, key: vkey, purpose: None, faults: vec![], pk: None, fk: None, validator: VSpec::None, alias: false, now_ns: now, pair_with: None });
+                    for variant in 0..6u8 {
+                        b.push(Step::Deliver { tok, node: 0, key: vkey, purpose: None, faults: vec![TokFault::FooterJsonVariant { variant }], pk: None, fk: None, validator: VSpec::None, alias: false, now_ns: now, pair_with: None });
+                    }
+                }
                 // segments larger than any internal buffer an encoder might use
                 let mut lens: Vec<usize> = (run as usize % 7..=300).step_by(7).collect();
                 lens.extend([1023, 1024, 1025, 4095, 4096, 4097, 4098, 5000, 8191, 8192, 8193, 12289, 65535, 65536, 65537]);
